@@ -289,9 +289,13 @@ func ecSignVerify(ks *cbnt.KeySignature, kind string, x, y *big.Int, other crypt
 	}
 	msgFlips := flipPositionsT(r, len(msg), all, 4, 1)
 	sigFlips := flipPositionsT(r, 64, all, 0, 1)
-	if kind == "sm2" && !all { // gmsm verification takes about a millisecond
-		msgFlips = msgFlips[:min(len(msgFlips), 12)]
-		sigFlips = append(sigFlips[:12], sigFlips[len(sigFlips)-12:]...)
+	if kind == "sm2" { // gmsm verification takes about a millisecond: sample, also in the thorough tier
+		msgFlips = flipPositionsT(r, len(msg), false, 4, 1)
+		sigFlips = flipPositionsT(r, 64, false, 0, 1)
+		if !all {
+			msgFlips = msgFlips[:min(len(msgFlips), 12)]
+			sigFlips = append(sigFlips[:12], sigFlips[len(sigFlips)-12:]...)
+		}
 	}
 	for _, bit := range msgFlips {
 		if std(ks.Key.Data, ks.Signature.Data, flipped(msg, bit)) {
